@@ -39,12 +39,16 @@ Inductive pstate :=
 | PAwait                (* wait_for_result: request enqueued, select on done.ch / ctx.Done() *)
 | PRet (r : result).    (* Offer returned *)
 
-(* what a Signal caller still has to do, under the mutex, after c.ch <- struct{}{} *)
-Inductive pending := PendNone | PendRes (id : nat) (e : Z).
-(* the queue's mutex: free between atomic sections, or held for ever/for a while by a thread
-   that is blocked on the cond's channel while holding it *)
-Inductive lockst := Free | BSend (k : pending) | BRecv (p : nat)
-  | BBcast.   (* cond.Broadcast is blocked on the full channel, holding the mutex (cond API only: see LBroadcast) *)
+(* Since fix a6d2b6d09 (finding F3) the condition variable never blocks while issuing a wake-up: the queue mutex is
+   free between any two atomic sections, so the model has no "mutex held by a blocked thread" state any more.
+   PRE-REPAIR cond (documentation only, nothing below uses it):
+     Signal_old : if waiting == 0 {return}; waiting--; ch <- struct{}{}        -- BLOCKING send on the 1-slot channel
+     Wait_old   : waiting++; Unlock; select { case <-ctx.Done(): Lock; if waiting == 0 { <-ch } else { waiting-- }
+                                             case <-ch: Lock; return nil }
+   With two cancelled waiters past their select and two Signals in a row the second send blocked for ever with the
+   mutex held (F3).  [signal_old] is that Signal on the pair (waiting, token in the channel): None = the send blocks. *)
+Definition signal_old (w : Z) (t : bool) : option (Z * bool) :=
+  if w =? 0 then Some (w, t) else if t then None else Some (w - 1, true).
 
 Record st := mkSt {
   size : Z;                       (* memoryQueue.size / persistentQueue.queueSize *)
@@ -52,8 +56,8 @@ Record st := mkSt {
   inflight : list (nat * Z);      (* handed to a consumer, OnDone not called yet *)
   stopped : bool;
   waiting : Z;                    (* cond.waiting *)
-  tok : bool;                     (* len(cond.ch) = 1 *)
-  lock : lockst;
+  tok : bool;                     (* len(cond.ch) = 1: the door bell is rung *)
+  sigs : Z;                       (* cond.signals: wake-ups issued and not yet taken by a waiter (guarded by the mutex) *)
   prods : list (nat * pstate);    (* producer threads that have called Offer *)
   cancelled : list nat;           (* producers whose context has ended *)
   results : list (nat * Z);       (* contents of the blockingDone channels, keyed by request id *)
@@ -75,29 +79,29 @@ Record st := mkSt {
   faulty : list (nat * Z)         (* persistent queue: parked producers whose request will fail Marshal (9) / the storage write (22) *)
 }.
 
-Definition init : st := mkSt 0 [] [] false 0 false Free [] [] [] [] [] [] [] [] 0%nat 0%nat [] [] [] [].
+Definition init : st := mkSt 0 [] [] false 0 false 0 [] [] [] [] [] [] [] [] 0%nat 0%nat [] [] [] [].
 
-Definition set_size v s := mkSt v (items s) (inflight s) (stopped s) (waiting s) (tok s) (lock s) (prods s) (cancelled s) (results s) (acc s) (hand s) (fin s) (pool s) (held s) (nobj s) (pick s) (cons s) (corrupt s) (dropped s) (faulty s).
-Definition set_items v s := mkSt (size s) v (inflight s) (stopped s) (waiting s) (tok s) (lock s) (prods s) (cancelled s) (results s) (acc s) (hand s) (fin s) (pool s) (held s) (nobj s) (pick s) (cons s) (corrupt s) (dropped s) (faulty s).
-Definition set_inflight v s := mkSt (size s) (items s) v (stopped s) (waiting s) (tok s) (lock s) (prods s) (cancelled s) (results s) (acc s) (hand s) (fin s) (pool s) (held s) (nobj s) (pick s) (cons s) (corrupt s) (dropped s) (faulty s).
-Definition set_stopped v s := mkSt (size s) (items s) (inflight s) v (waiting s) (tok s) (lock s) (prods s) (cancelled s) (results s) (acc s) (hand s) (fin s) (pool s) (held s) (nobj s) (pick s) (cons s) (corrupt s) (dropped s) (faulty s).
-Definition set_waiting v s := mkSt (size s) (items s) (inflight s) (stopped s) v (tok s) (lock s) (prods s) (cancelled s) (results s) (acc s) (hand s) (fin s) (pool s) (held s) (nobj s) (pick s) (cons s) (corrupt s) (dropped s) (faulty s).
-Definition set_tok v s := mkSt (size s) (items s) (inflight s) (stopped s) (waiting s) v (lock s) (prods s) (cancelled s) (results s) (acc s) (hand s) (fin s) (pool s) (held s) (nobj s) (pick s) (cons s) (corrupt s) (dropped s) (faulty s).
-Definition set_lock v s := mkSt (size s) (items s) (inflight s) (stopped s) (waiting s) (tok s) v (prods s) (cancelled s) (results s) (acc s) (hand s) (fin s) (pool s) (held s) (nobj s) (pick s) (cons s) (corrupt s) (dropped s) (faulty s).
-Definition set_prods v s := mkSt (size s) (items s) (inflight s) (stopped s) (waiting s) (tok s) (lock s) v (cancelled s) (results s) (acc s) (hand s) (fin s) (pool s) (held s) (nobj s) (pick s) (cons s) (corrupt s) (dropped s) (faulty s).
-Definition set_cancelled v s := mkSt (size s) (items s) (inflight s) (stopped s) (waiting s) (tok s) (lock s) (prods s) v (results s) (acc s) (hand s) (fin s) (pool s) (held s) (nobj s) (pick s) (cons s) (corrupt s) (dropped s) (faulty s).
-Definition set_results v s := mkSt (size s) (items s) (inflight s) (stopped s) (waiting s) (tok s) (lock s) (prods s) (cancelled s) v (acc s) (hand s) (fin s) (pool s) (held s) (nobj s) (pick s) (cons s) (corrupt s) (dropped s) (faulty s).
-Definition set_acc v s := mkSt (size s) (items s) (inflight s) (stopped s) (waiting s) (tok s) (lock s) (prods s) (cancelled s) (results s) v (hand s) (fin s) (pool s) (held s) (nobj s) (pick s) (cons s) (corrupt s) (dropped s) (faulty s).
-Definition set_hand v s := mkSt (size s) (items s) (inflight s) (stopped s) (waiting s) (tok s) (lock s) (prods s) (cancelled s) (results s) (acc s) v (fin s) (pool s) (held s) (nobj s) (pick s) (cons s) (corrupt s) (dropped s) (faulty s).
-Definition set_fin v s := mkSt (size s) (items s) (inflight s) (stopped s) (waiting s) (tok s) (lock s) (prods s) (cancelled s) (results s) (acc s) (hand s) v (pool s) (held s) (nobj s) (pick s) (cons s) (corrupt s) (dropped s) (faulty s).
-Definition set_pool v s := mkSt (size s) (items s) (inflight s) (stopped s) (waiting s) (tok s) (lock s) (prods s) (cancelled s) (results s) (acc s) (hand s) (fin s) v (held s) (nobj s) (pick s) (cons s) (corrupt s) (dropped s) (faulty s).
-Definition set_held v s := mkSt (size s) (items s) (inflight s) (stopped s) (waiting s) (tok s) (lock s) (prods s) (cancelled s) (results s) (acc s) (hand s) (fin s) (pool s) v (nobj s) (pick s) (cons s) (corrupt s) (dropped s) (faulty s).
-Definition set_nobj v s := mkSt (size s) (items s) (inflight s) (stopped s) (waiting s) (tok s) (lock s) (prods s) (cancelled s) (results s) (acc s) (hand s) (fin s) (pool s) (held s) v (pick s) (cons s) (corrupt s) (dropped s) (faulty s).
-Definition set_pick v s := mkSt (size s) (items s) (inflight s) (stopped s) (waiting s) (tok s) (lock s) (prods s) (cancelled s) (results s) (acc s) (hand s) (fin s) (pool s) (held s) (nobj s) v (cons s) (corrupt s) (dropped s) (faulty s).
-Definition set_cons v s := mkSt (size s) (items s) (inflight s) (stopped s) (waiting s) (tok s) (lock s) (prods s) (cancelled s) (results s) (acc s) (hand s) (fin s) (pool s) (held s) (nobj s) (pick s) v (corrupt s) (dropped s) (faulty s).
-Definition set_corrupt v s := mkSt (size s) (items s) (inflight s) (stopped s) (waiting s) (tok s) (lock s) (prods s) (cancelled s) (results s) (acc s) (hand s) (fin s) (pool s) (held s) (nobj s) (pick s) (cons s) v (dropped s) (faulty s).
-Definition set_dropped v s := mkSt (size s) (items s) (inflight s) (stopped s) (waiting s) (tok s) (lock s) (prods s) (cancelled s) (results s) (acc s) (hand s) (fin s) (pool s) (held s) (nobj s) (pick s) (cons s) (corrupt s) v (faulty s).
-Definition set_faulty v s := mkSt (size s) (items s) (inflight s) (stopped s) (waiting s) (tok s) (lock s) (prods s) (cancelled s) (results s) (acc s) (hand s) (fin s) (pool s) (held s) (nobj s) (pick s) (cons s) (corrupt s) (dropped s) v.
+Definition set_size v s := mkSt v (items s) (inflight s) (stopped s) (waiting s) (tok s) (sigs s) (prods s) (cancelled s) (results s) (acc s) (hand s) (fin s) (pool s) (held s) (nobj s) (pick s) (cons s) (corrupt s) (dropped s) (faulty s).
+Definition set_items v s := mkSt (size s) v (inflight s) (stopped s) (waiting s) (tok s) (sigs s) (prods s) (cancelled s) (results s) (acc s) (hand s) (fin s) (pool s) (held s) (nobj s) (pick s) (cons s) (corrupt s) (dropped s) (faulty s).
+Definition set_inflight v s := mkSt (size s) (items s) v (stopped s) (waiting s) (tok s) (sigs s) (prods s) (cancelled s) (results s) (acc s) (hand s) (fin s) (pool s) (held s) (nobj s) (pick s) (cons s) (corrupt s) (dropped s) (faulty s).
+Definition set_stopped v s := mkSt (size s) (items s) (inflight s) v (waiting s) (tok s) (sigs s) (prods s) (cancelled s) (results s) (acc s) (hand s) (fin s) (pool s) (held s) (nobj s) (pick s) (cons s) (corrupt s) (dropped s) (faulty s).
+Definition set_waiting v s := mkSt (size s) (items s) (inflight s) (stopped s) v (tok s) (sigs s) (prods s) (cancelled s) (results s) (acc s) (hand s) (fin s) (pool s) (held s) (nobj s) (pick s) (cons s) (corrupt s) (dropped s) (faulty s).
+Definition set_tok v s := mkSt (size s) (items s) (inflight s) (stopped s) (waiting s) v (sigs s) (prods s) (cancelled s) (results s) (acc s) (hand s) (fin s) (pool s) (held s) (nobj s) (pick s) (cons s) (corrupt s) (dropped s) (faulty s).
+Definition set_sigs v s := mkSt (size s) (items s) (inflight s) (stopped s) (waiting s) (tok s) v (prods s) (cancelled s) (results s) (acc s) (hand s) (fin s) (pool s) (held s) (nobj s) (pick s) (cons s) (corrupt s) (dropped s) (faulty s).
+Definition set_prods v s := mkSt (size s) (items s) (inflight s) (stopped s) (waiting s) (tok s) (sigs s) v (cancelled s) (results s) (acc s) (hand s) (fin s) (pool s) (held s) (nobj s) (pick s) (cons s) (corrupt s) (dropped s) (faulty s).
+Definition set_cancelled v s := mkSt (size s) (items s) (inflight s) (stopped s) (waiting s) (tok s) (sigs s) (prods s) v (results s) (acc s) (hand s) (fin s) (pool s) (held s) (nobj s) (pick s) (cons s) (corrupt s) (dropped s) (faulty s).
+Definition set_results v s := mkSt (size s) (items s) (inflight s) (stopped s) (waiting s) (tok s) (sigs s) (prods s) (cancelled s) v (acc s) (hand s) (fin s) (pool s) (held s) (nobj s) (pick s) (cons s) (corrupt s) (dropped s) (faulty s).
+Definition set_acc v s := mkSt (size s) (items s) (inflight s) (stopped s) (waiting s) (tok s) (sigs s) (prods s) (cancelled s) (results s) v (hand s) (fin s) (pool s) (held s) (nobj s) (pick s) (cons s) (corrupt s) (dropped s) (faulty s).
+Definition set_hand v s := mkSt (size s) (items s) (inflight s) (stopped s) (waiting s) (tok s) (sigs s) (prods s) (cancelled s) (results s) (acc s) v (fin s) (pool s) (held s) (nobj s) (pick s) (cons s) (corrupt s) (dropped s) (faulty s).
+Definition set_fin v s := mkSt (size s) (items s) (inflight s) (stopped s) (waiting s) (tok s) (sigs s) (prods s) (cancelled s) (results s) (acc s) (hand s) v (pool s) (held s) (nobj s) (pick s) (cons s) (corrupt s) (dropped s) (faulty s).
+Definition set_pool v s := mkSt (size s) (items s) (inflight s) (stopped s) (waiting s) (tok s) (sigs s) (prods s) (cancelled s) (results s) (acc s) (hand s) (fin s) v (held s) (nobj s) (pick s) (cons s) (corrupt s) (dropped s) (faulty s).
+Definition set_held v s := mkSt (size s) (items s) (inflight s) (stopped s) (waiting s) (tok s) (sigs s) (prods s) (cancelled s) (results s) (acc s) (hand s) (fin s) (pool s) v (nobj s) (pick s) (cons s) (corrupt s) (dropped s) (faulty s).
+Definition set_nobj v s := mkSt (size s) (items s) (inflight s) (stopped s) (waiting s) (tok s) (sigs s) (prods s) (cancelled s) (results s) (acc s) (hand s) (fin s) (pool s) (held s) v (pick s) (cons s) (corrupt s) (dropped s) (faulty s).
+Definition set_pick v s := mkSt (size s) (items s) (inflight s) (stopped s) (waiting s) (tok s) (sigs s) (prods s) (cancelled s) (results s) (acc s) (hand s) (fin s) (pool s) (held s) (nobj s) v (cons s) (corrupt s) (dropped s) (faulty s).
+Definition set_cons v s := mkSt (size s) (items s) (inflight s) (stopped s) (waiting s) (tok s) (sigs s) (prods s) (cancelled s) (results s) (acc s) (hand s) (fin s) (pool s) (held s) (nobj s) (pick s) v (corrupt s) (dropped s) (faulty s).
+Definition set_corrupt v s := mkSt (size s) (items s) (inflight s) (stopped s) (waiting s) (tok s) (sigs s) (prods s) (cancelled s) (results s) (acc s) (hand s) (fin s) (pool s) (held s) (nobj s) (pick s) (cons s) v (dropped s) (faulty s).
+Definition set_dropped v s := mkSt (size s) (items s) (inflight s) (stopped s) (waiting s) (tok s) (sigs s) (prods s) (cancelled s) (results s) (acc s) (hand s) (fin s) (pool s) (held s) (nobj s) (pick s) (cons s) (corrupt s) v (faulty s).
+Definition set_faulty v s := mkSt (size s) (items s) (inflight s) (stopped s) (waiting s) (tok s) (sigs s) (prods s) (cancelled s) (results s) (acc s) (hand s) (fin s) (pool s) (held s) (nobj s) (pick s) (cons s) (corrupt s) (dropped s) v.
 
 (* ---- the thread map ------------------------------------------------------------------------ *)
 Fixpoint pget (p : nat) (m : list (nat * pstate)) : option pstate :=
@@ -118,21 +122,11 @@ Definition memb (p : nat) (l : list nat) : bool := existsb (Nat.eqb p) l.
 
 (* ---- cond.Signal (called with the mutex held) -------------------------------------------------
      if c.waiting == 0 { return }
-     c.waiting--
-     c.ch <- struct{}{}        // blocks, with the mutex held, when the 1-slot channel is full
-   [k] is the rest of the caller's critical section that comes after the Signal. *)
-Definition deliver (k : pending) (s : st) : st :=
-  match k with
-  | PendNone => s
-  | PendRes id e => set_results (results s ++ [(id, e)]) s      (* bd.ch <- err *)
-  end.
-
-Definition signal (k : pending) (s : st) : st :=
-  if waiting s =? 0 then deliver k s
-  else
-    let s1 := set_waiting (waiting s - 1) s in
-    if tok s1 then set_lock (BSend k) s1
-    else deliver k (set_tok true s1).
+     c.waiting--; c.signals++
+     c.ring()                  // non-blocking send on the 1-slot channel: the bell is rung (or already was) *)
+Definition signal (s : st) : st :=
+  if waiting s =? 0 then s
+  else set_tok true (set_sigs (sigs s + 1) (set_waiting (waiting s - 1) s)).
 
 (* ---- hasMoreElements (sync.Cond): Signal wakes the longest-waiting parked consumer, Broadcast all ---- *)
 Fixpoint wake1 (l : list (nat * bool)) : list (nat * bool) :=
@@ -149,16 +143,13 @@ Fixpoint ccount (b : bool) (l : list (nat * bool)) : Z :=
   match l with [] => 0 | (_, w) :: r => (if Bool.eqb w b then 1 else 0) + ccount b r end.
 
 (* ---- cond.Broadcast (called with the mutex held) ---------------------------------------------------
-     for ; c.waiting > 0; c.waiting-- { c.ch <- struct{}{} }
+     c.signals += c.waiting; c.waiting = 0; if c.signals > 0 { c.ring() }
    NOTE: no production code calls it — memoryQueue/persistentQueue.Shutdown broadcast on hasMoreElements, which is
    a sync.Cond, not this type.  It is modelled as part of the cond API (label LBroadcast, excluded from the
-   queues' [reachable] by wf_label) and exercised by the harness through a direct call.
-   One call of [bcast] = the loop up to its first blocking send (or its exit). *)
+   queues' [reachable] by wf_label) and exercised by the harness through a direct call. *)
 Definition bcast (s : st) : st :=
-  if waiting s =? 0 then set_lock Free s
-  else if tok s then set_lock BBcast s
-  else let s1 := set_waiting (waiting s - 1) (set_tok true s) in
-       if waiting s1 =? 0 then set_lock Free s1 else set_lock BBcast s1.
+  let s1 := set_waiting 0 (set_sigs (sigs s + waiting s) s) in
+  if 0 <? sigs s1 then set_tok true s1 else s1.
 
 (* ---- blockingDonePool (memory_queue.go; the persistent queue's indexDonePool is never Put to) -------
    sync.Pool.Get returns ANY pooled object or a new one: the environment label [LPick b] chooses which pooled
@@ -239,7 +230,7 @@ Definition read (c : cfg) (s : st) : option (st * Z) :=
            | (p, sz) :: r =>
                let s1 := handoff p sz r s in
                let s2 := match r with
-                         | [] => signal PendNone (set_size 0 s1)      (* readIndex == writeIndex: size reset + Signal *)
+                         | [] => signal (set_size 0 s1)      (* readIndex == writeIndex: size reset + Signal *)
                          | _ => s1
                          end in
                Some (s2, 10 + Z.of_nat p)
@@ -270,9 +261,9 @@ Definition cread_faulty (c : cfg) (k : nat) (s : st) : st * Z :=
   match snd (skipbad (corrupt s) (items s)) with
   | (p, sz) :: r =>
       let s2 := handoff p sz r s1 in
-      (match r with [] => signal PendNone (set_size 0 s2) | _ => s2 end, 10 + Z.of_nat p)
+      (match r with [] => signal (set_size 0 s2) | _ => s2 end, 10 + Z.of_nat p)
   | [] =>
-      park k (match d with [] => s1 | _ => signal PendNone (set_size 0 s1) end)
+      park k (match d with [] => s1 | _ => signal (set_size 0 s1) end)
   end.
 
 Definition cread (c : cfg) (k : nat) (s : st) : st * Z :=
@@ -301,14 +292,14 @@ Definition done (c : cfg) (id : nat) (e : Z) (s : st) : option (st * Z) :=
       let s1 := set_fin (fin s ++ [(id, e)]) (set_inflight (remove_id id (inflight s)) s) in
       let s2 := match kind c with
                 | Mem =>
-                    (* non-wait-for-result: blockingDonePool.Put(bd) closes the critical section.  It is modelled
-                       BEFORE the Signal: if the Signal blocks it blocks holding the mutex, and nobody can Get
-                       (Get happens under the mutex) until it has returned, so the order is unobservable *)
+                    (* non-wait-for-result: blockingDonePool.Put(bd) closes the critical section (its position
+                       relative to the Signal inside the section is unobservable) *)
                     let s1' := if wfr c then s1 else pool_put id s1 in
-                    signal (if wfr c then PendRes id e else PendNone) (set_size (size s1' - sz) s1')
-                | Pers => signal PendNone (set_size (Z.max 0 (size s1 - sz)) s1)
+                    let s2 := signal (set_size (size s1' - sz) s1') in
+                    if wfr c then set_results (results s2 ++ [(id, e)]) s2 else s2      (* bd.ch <- err *)
+                | Pers => signal (set_size (Z.max 0 (size s1 - sz)) s1)
                 end in
-      Some (s2, match lock s2 with Free => 0 | _ => c_sigblocked end)
+      Some (s2, 0)
   end.
 
 (* ---- labels ---------------------------------------------------------------------------------- *)
@@ -338,32 +329,18 @@ Inductive label :=
                                    ([faulty] remembers it).  Part of [reachable] since the repair of the finding
                                    C02-FAULTY-WAITER-STEALS-WAKEUP. *)
 
-Definition lock_free (s : st) : bool := match lock s with Free => true | _ => false end.
-
 Definition find_res (id : nat) (l : list (nat * Z)) : option Z := find_id id l.
 
 Definition step (c : cfg) (s : st) (l : label) : option (st * Z) :=
   match l with
   | LOffer p sz =>
-      if lock_free s then
-        match pget p (prods s) with
-        | None => Some (offer c p sz s)
-        | Some _ => None
-        end
-      else None
-  | LSelTok p =>
       match pget p (prods s) with
-      | Some (PInSelect sz) =>
-          if tok s then
-            let s1 := setp p (PLeftTok sz) s in
-            match lock s with
-            | BSend k => Some (deliver k (set_lock Free s1), 0)   (* the blocked sender's value refills the slot *)
-            | BBcast =>    (* the blocked Broadcast's value refills the slot; waiting--; next iteration *)
-                let s2 := set_waiting (waiting s1 - 1) s1 in
-                Some (if waiting s2 =? 0 then set_lock Free s2 else s2, 0)
-            | _ => Some (set_tok false s1, 0)
-            end
-          else None
+      | None => Some (offer c p sz s)
+      | Some _ => None
+      end
+  | LSelTok p =>           (* case <-c.ch: the bell *)
+      match pget p (prods s) with
+      | Some (PInSelect sz) => if tok s then Some (set_tok false (setp p (PLeftTok sz) s), 0) else None
       | _ => None
       end
   | LSelCtx p =>
@@ -371,34 +348,34 @@ Definition step (c : cfg) (s : st) (l : label) : option (st * Z) :=
       | Some (PInSelect sz) => if memb p (cancelled s) then Some (setp p (PLeftCtx sz) s, 0) else None
       | _ => None
       end
-  | LRelockTok p =>
-      if lock_free s then
-        match pget p (prods s) with
-        | Some (PLeftTok sz) =>
-            match find_id p (faulty s) with
+  | LRelockTok p =>        (* c.L.Lock() after the bell *)
+      match pget p (prods s) with
+      | Some (PLeftTok sz) =>
+          if 0 <? sigs s then
+            (* a wake-up is there: signals--; pass the bell on if more are left; Wait returns nil; next loop iteration *)
+            let s0 := set_sigs (sigs s - 1) s in
+            let s1 := if 0 <? sigs s0 then set_tok true s0 else s0 in
+            match find_id p (faulty s1) with
             | Some k =>   (* a parked producer whose request cannot be stored: past the capacity loop it returns its
                              error and passes the wake-up on: hasMoreSpace.Signal() on both error paths (fix 03fbf1134) *)
-                if size s + sz >? cap c then Some (try_add c p sz s)
-                else Some (signal PendNone (setp p (PRet (RErr k)) s), k)
-            | None => Some (try_add c p sz s)
+                if size s1 + sz >? cap c then Some (try_add c p sz s1)
+                else Some (signal (setp p (PRet (RErr k)) s1), k)
+            | None => Some (try_add c p sz s1)
             end
-        | _ => None
-        end
-      else None
-  | LRelockCtx p =>
-      if lock_free s then
-        match pget p (prods s) with
-        | Some (PLeftCtx sz) =>
-            if waiting s =? 0 then
-              if tok s then Some (setp p (PRet RCtx) (set_tok false s), c_ctx)     (* <-c.ch *)
-              else Some (set_lock (BRecv p) s, c_stuck)                            (* would block for ever *)
-            else Some (setp p (PRet RCtx) (set_waiting (waiting s - 1) s), c_ctx)
-        | _ => None
-        end
-      else None
+          else   (* the wake-up was consumed by a waiter whose context ended: Unlock, keep waiting (still registered) *)
+            Some (setp p (PInSelect sz) s, c_blocked)
+      | _ => None
+      end
+  | LRelockCtx p =>        (* c.L.Lock() after ctx.Done(): waiting == 0 ? signals-- : waiting--; return ctx.Err() *)
+      match pget p (prods s) with
+      | Some (PLeftCtx sz) =>
+          if waiting s =? 0 then Some (setp p (PRet RCtx) (set_sigs (sigs s - 1) s), c_ctx)
+          else Some (setp p (PRet RCtx) (set_waiting (waiting s - 1) s), c_ctx)
+      | _ => None
+      end
   | LCancel p => Some (set_cancelled (p :: cancelled s) s, 0)
-  | LRead => if lock_free s then read c s else None
-  | LDone id e => if lock_free s then done c id e s else None
+  | LRead => read c s
+  | LDone id e => done c id e s
   | LResult p =>
       match pget p (prods s) with
       | Some PAwait =>
@@ -415,40 +392,32 @@ Definition step (c : cfg) (s : st) (l : label) : option (st * Z) :=
       | _ => None
       end
   | LShutdown =>                   (* stopped = true; hasMoreElements.Broadcast() *)
-      if lock_free s then Some (set_cons (wakeall (cons s)) (set_stopped true s), 0) else None
+      Some (set_cons (wakeall (cons s)) (set_stopped true s), 0)
   | LCRead k =>
-      if lock_free s then
-        match cfind k (cons s) with None => Some (cread c k s) | Some _ => None end
-      else None
+      match cfind k (cons s) with None => Some (cread c k s) | Some _ => None end
   | LCWake k =>
-      if lock_free s then
-        match cfind k (cons s) with
-        | Some true => Some (cread c k (set_cons (crem k (cons s)) s))
-        | _ => None
-        end
-      else None
+      match cfind k (cons s) with
+      | Some true => Some (cread c k (set_cons (crem k (cons s)) s))
+      | _ => None
+      end
   | LCorrupt id => Some (set_corrupt (id :: corrupt s) s, 0)
   | LOfferF p sz k =>
-      if lock_free s then
-        match pget p (prods s), kind c with
-        | None, Pers =>
-            if blocking c && (sz >? cap c) then Some (setp p (PRet RTooLarge) s, c_toolarge)   (* before Marshal *)
-            else if size s + sz >? cap c then
-              if blocking c
-              then Some (set_faulty (faulty s ++ [(p, k)]) (setp p (PInSelect sz) (set_waiting (waiting s + 1) s)), c_blocked)
-              else Some (setp p (PRet RFull) s, c_full)
-            else Some (signal PendNone (setp p (PRet (RErr k)) s), k)   (* error paths Signal (a no-op without waiters) *)
-        | _, _ => None
-        end
-      else None
+      match pget p (prods s), kind c with
+      | None, Pers =>
+          if blocking c && (sz >? cap c) then Some (setp p (PRet RTooLarge) s, c_toolarge)   (* before Marshal *)
+          else if size s + sz >? cap c then
+            if blocking c
+            then Some (set_faulty (faulty s ++ [(p, k)]) (setp p (PInSelect sz) (set_waiting (waiting s + 1) s)), c_blocked)
+            else Some (setp p (PRet RFull) s, c_full)
+          else Some (signal (setp p (PRet (RErr k)) s), k)   (* error paths Signal (a no-op without waiters) *)
+      | _, _ => None
+      end
   | LPick b => Some (set_pick b s, 0)
   | LObj p b => match hget p (held s) with
                 | Some b' => if Nat.eqb b' b then Some (s, 0) else None
                 | None => None
                 end
-  | LBroadcast => if lock_free s then
-                    let s1 := bcast s in Some (s1, match lock s1 with Free => 0 | _ => c_sigblocked end)
-                  else None
+  | LBroadcast => Some (bcast s, 0)
   end.
 
 Fixpoint run (c : cfg) (s : st) (ls : list label) : option st :=
@@ -496,7 +465,6 @@ Fixpoint cnt (f : pstate -> bool) (m : list (nat * pstate)) : Z :=
   | (_, v) :: r => (if f v then 1 else 0) + cnt f r
   end.
 Definition b2z (b : bool) : Z := if b then 1 else 0.
-Definition sb (s : st) : Z := match lock s with BSend _ => 1 | _ => 0 end.
 
 Definition sum_sz (l : list (nat * Z)) : Z := sumZ (map snd l).
 
@@ -530,26 +498,13 @@ Definition refused_result (r : result) : bool :=
 (* somebody is still inside Offer *)
 Definition stuck (s : st) : Prop := exists p v, pget p (prods s) = Some v /\ forall r, v <> PRet r.
 
-(* finding F3: a Signal is blocked on the full channel holding the mutex, nobody is inside the select any more,
-   waiting + 2 producers have left the select on their context and wait for the mutex *)
-Definition f3_shape (s : st) : Prop :=
-  (exists k, lock s = BSend k) /\ tok s = true /\ cnt is_insel (prods s) = 0 /\
-  cnt is_leftctx (prods s) = waiting s + 2.
-
-(* finding S1 (and its after-effect, the stolen wake-up): the mutex is free, the queue is empty and idle, no
-   token is pending, and a producer whose context has not ended sits inside the select *)
-Definition s1_shape (s : st) : Prop :=
-  lock s = Free /\ size s = 0 /\ items s = [] /\ inflight s = [] /\ tok s = false /\
-  exists p sz, pget p (prods s) = Some (PInSelect sz) /\ ~ In p (cancelled s).
-
 Definition is_await (v : pstate) : bool := match v with PAwait => true | _ => false end.
 
 (* every internal step of a running queue strictly decreases this natural-number measure *)
 Definition mu (s : st) : Z :=
-  6 * Z.of_nat (length (items s)) + 3 * Z.of_nat (length (inflight s)) +
-  8 * cnt is_insel (prods s) + 9 * cnt is_lefttok (prods s) + cnt is_leftctx (prods s) +
-  cnt is_await (prods s) + 2 * (b2z (tok s) + sb s) +
-  2 * (match lock s with BBcast => waiting s | _ => 0 end) + ccount true (cons s).
+  10 * Z.of_nat (length (items s)) + 5 * Z.of_nat (length (inflight s)) +
+  12 * cnt is_insel (prods s) + 13 * cnt is_lefttok (prods s) + cnt is_leftctx (prods s) +
+  cnt is_await (prods s) + 2 * b2z (tok s) + 2 * sigs s + ccount true (cons s).
 
 (* runs of the cond API: every label, including Broadcast *)
 Definition reachable_api (c : cfg) (s : st) : Prop :=
